@@ -32,6 +32,8 @@ import (
 
 	"keepverif/harness/hx"
 
+	golog "github.com/ipfs/go-log/v2"
+
 	"github.com/keep-network/keep-core/pkg/beacon/dkg/result"
 	"github.com/keep-network/keep-core/pkg/beacon/gjkr"
 	"github.com/keep-network/keep-core/pkg/bitcoin"
@@ -49,6 +51,8 @@ import (
 )
 
 var signing = local_v1.Connect(5, 3).Signing()
+
+var logger = golog.Logger("verif-c12")
 
 const waitTimeout = 15 * time.Second
 
@@ -277,7 +281,25 @@ func execOp(o *opT) []string {
 		return out
 	case "gjkr":
 		sk, mk := variantParts(o.variant)
-		r := gjkr.VerifC12NewReceiver(sk, o.self(), o.group(), mv, session(o.sess))
+		var r *gjkr.VerifC12Receiver
+		if strings.HasSuffix(sk, "-init") {
+			// the state's own Initiate runs first: members silent in the previous phase become inactive
+			var active []group.MemberIndex
+			for _, a := range o.allowed {
+				if a >= 0 && a <= 255 {
+					active = append(active, uint8(a))
+				}
+			}
+			var err error
+			r, err = gjkr.VerifC12NewInitiatedReceiver(context.Background(), sk, logger, newFchan(), o.self(),
+				o.group(), mv, session(o.sess), active)
+			if err != nil {
+				return []string{"err:initiate"}
+			}
+			mk = strings.TrimSuffix(mk, "-init")
+		} else {
+			r = gjkr.VerifC12NewReceiver(sk, o.self(), o.group(), mv, session(o.sess))
+		}
 		if r == nil || gjkr.VerifC12NewMessage(mk, 1, "") == nil {
 			return nil
 		}
@@ -697,6 +719,19 @@ func exec(op string) (string, string) {
 		if owner == m.netKey && m.sess != o.sess {
 			tags["wrongsession"] = true
 		}
+		if strings.Contains(o.variant, "-init") && owner == m.netKey && owner != 0 && int(m.idx) != int(o.self()) {
+			silent := true
+			for _, a := range o.allowed {
+				if a == int(m.idx) {
+					silent = false
+				}
+			}
+			if silent {
+				tags["silent-prev-phase"] = true
+			} else if oc == "stored" {
+				tags["active-prev-phase"] = true
+			}
+		}
 		if owner == m.netKey && m.msgKey != m.netKey {
 			tags["wrongkey"] = true
 		}
@@ -828,6 +863,15 @@ func baseOp(r *hx.Rng, step string, ops []int) *opT {
 		for a := 0; a < 6; a++ {
 			if r.Chance(1, 2) {
 				o.allowed = append(o.allowed, a)
+			}
+		}
+	case "gjkr":
+		if strings.Contains(o.variant, "-init") {
+			// members that sent their message in the previous phase
+			for s := 1; s <= minI(n, 255); s++ {
+				if !r.Chance(1, 4) {
+					o.allowed = append(o.allowed, s)
+				}
 			}
 		}
 	case "done":
